@@ -206,6 +206,33 @@ def make_case(jobs):
     return {"cluster": spec, "ops": ops, "meta": {"nboot": 3, "jobs": metas}}
 
 
+def make_config_case(rng, client_flag, builder_flag, source, target):
+    """the way the setting reaches the decoder: a consumer built from hosts or from a client whose own setting is on, off or
+    untouched, with the builder's with_fetch_crc_validation on, off or absent; then a poll that is answered with an altered message"""
+    spec = {"brokers": brokers(1), "topics": {TOPIC: [1]}, "logs": {}}
+    ops = boot_ops(spec)
+    if source == "client" and client_flag is not None:
+        ops.append(T("set_fetch_crc_validation", [client_flag]))
+    calls = [T("with_topic", [TOPIC]), T("with_fallback_offset", [T("earliest")])]
+    if builder_flag is not None:
+        calls.append(T("with_fetch_crc_validation", [builder_flag]))
+    rng.shuffle(calls)
+    hs = [h + b":" + str(p).encode() for _, (h, p) in sorted(spec["brokers"].items())]
+    ops.append(T("consumer_build", [T("from_client") if source == "client" else T("from_hosts", [hs]), calls]))
+    entries, path, req, chunk = corpus()[target]
+    n = len(clean_message(entries, path, chunk)) - 12
+    bit = rng.choice(sorted(content_bits(entries, path)))
+    xor = xor_of_bits(n, [bit])
+    data = build_set(entries, path, chunk, xor)
+    hw = kproto.flatten_entries(entries)[-1][0] + 1
+    body = {"topics": [{"topic": TOPIC, "partitions": [{"partition": 0, "error": 0, "highwatermark": hw, "message_set": data}]}]}
+    ops.append({"op": T("poll"), "mutate": {"kind": "body", "api": "fetch", "body": body}})
+    effective = builder_flag if builder_flag is not None else (client_flag if (source == "client" and client_flag is not None) else 1)
+    return {"cluster": spec, "ops": ops,
+            "meta": {"nboot": 3, "jobs": [], "config": {"client": client_flag, "builder": builder_flag, "source": source, "target": target,
+                                                       "bit": bit, "effective": effective, "sent": data}}}
+
+
 def gen(rng, tier):
     quick = tier == "quick"
     targets = corpus()
@@ -257,7 +284,14 @@ def gen(rng, tier):
                 both(burst_bits(rng, s, l, f), "burst_" + where, 0.5)
     rng.shuffle(jobs)
     jobs = [witness_job(1), witness_job(0)] + jobs
-    return [make_case(jobs[i:i + OPS_PER_CASE]) for i in range(0, len(jobs), OPS_PER_CASE)]
+    cases = [make_case(jobs[i:i + OPS_PER_CASE]) for i in range(0, len(jobs), OPS_PER_CASE)]
+    # the configuration paths of the setting (consumer builder x client setting x from hosts / from a client)
+    for target in (("plain-key", "plain-middle") if quick else ("plain-key", "plain-middle", "plain-tiny", "plain-last-null")):
+        for source in ("client", "hosts"):
+            for client_flag in ((None, 0, 1) if source == "client" else (None,)):
+                for builder_flag in (None, 0, 1):
+                    cases.append(make_config_case(rng, client_flag, builder_flag, source, target))
+    return cases
 
 
 # ---- oracle ----------------------------------------------------------------------------------------------
@@ -282,6 +316,25 @@ CORRUPT = T("err", [T("kafka", [2])])
 def oracle(case, recs, cl):
     fails = []
     meta = case["meta"]
+    if meta.get("config"):
+        c = meta["config"]
+        what = "consumer from %s (client setting %s, builder setting %s) %s bit %d" % (c["source"], c["client"], c["builder"], c["target"], c["bit"])
+        if len(recs) < len(case["ops"]):
+            return ["C04: %s: case stopped early: %s" % (what, dumps(recs[-1]["impl"])[:100])]
+        res = recs[-1]["impl"]
+        if res.name in ("panic", "hang", "abort"):
+            return ["C04: %s: poll crashed: %s" % (what, dumps(res)[:80])]
+        if c["effective"]:
+            if res != CORRUPT:
+                fails.append("C04: %s: validation is on for this consumer, expected (err (kafka 2)), got %s" % (what, dumps(res)[:100]))
+        else:
+            want = [(o, k_, v) for (o, k_, v) in decode_ignoring_crc(c["sent"])]
+            got = None
+            if res.name == "ok":
+                got = [(m.args[0], m.args[1], m.args[2]) for st in res.args[0].args[1] for m in st.args[2]]
+            if got != want:
+                fails.append("C04: %s: validation is off for this consumer, the set as sent decodes to %s, result is %s" % (what, want, dumps(res)[:120]))
+        return fails
     for i, j in enumerate(meta["jobs"]):
         if j is None:
             continue
@@ -330,6 +383,8 @@ def oracle(case, recs, cl):
 
 
 def nontrivial(case, recs):
+    if case["meta"].get("config"):
+        return len(recs) == len(case["ops"])
     jobs = case["meta"]["jobs"]
     return len(recs) == len(case["ops"]) and any(j and j["validate"] and any(j["xor"]) for j in jobs)
 
@@ -339,6 +394,9 @@ def stats(case, recs):
 
     def bump(k, n=1):
         s[k] = s.get(k, 0) + n
+    if case["meta"].get("config"):
+        c = case["meta"]["config"]
+        bump("config_path:%s/client=%s/builder=%s" % (c["source"], c["client"], c["builder"]))
     for j in case["meta"]["jobs"]:
         if j is None:
             continue
